@@ -65,6 +65,8 @@ func checkC11(c *Ctx) {
 	ruleParseLoopProgress(c, "C11.k", "imapclient", "internal")
 	c.rule("C11.l", "interface fields of delivered data that can hold the nil interface (NIL on the wire) are called through only after a non-nil test", 3)
 	ruleNilableIfaceFields(c, "C11.l", "imapclient", "")
+	c.rule("C11.m", "a map field that is written through is never reset to nil", 1)
+	ruleMapFieldsNeverNil(c, "C11.m", "imapclient")
 }
 
 // ruleZeroFromWire: C11.b.
